@@ -1394,6 +1394,10 @@ func (f *Frame) lookup(i *ssa.Lookup) {
 	ok := e.define(f.id+"."+i.Name()+".ok", sBool, and(not(eq(x.T, "0")), sel(sel(d, x.T), k.T)))
 	val := term(e.define(f.id+"."+i.Name()+".v", vs, ite(ok, sel(sel(vv, x.T), k.T), e.sorts.zero(mt.Elem()))), vs, mt.Elem())
 	e.assumeAllocated(f.st, f.pc, val)
+	switch mt.Elem().Underlying().(type) {
+	case *types.Slice, *types.Map:
+		val.Guard = x.Guard // a list or map stored in a guarded map is covered by the same lock
+	}
 	if i.CommaOk {
 		f.vals[i] = &Value{Type: i.Type(), Tuple: []*Value{val, term(ok, sBool, types.Typ[types.Bool])}}
 	} else {
@@ -1435,6 +1439,10 @@ func (f *Frame) next(i *ssa.Next) {
 	e.assume(f.pc, implies(not(ok), fmt.Sprintf("(forall ((k %s)) (! (=> (select %s k) (select %s k)) :pattern ((select %s k))))", ks, dom, seen, dom)))
 	e.assume(f.pc, implies(eq(m.T, "0"), not(ok)))
 	v := term(e.define(f.id+"."+i.Name()+".v", vs, sel(sel(vv, m.T), k)), vs, mt.Elem())
+	switch mt.Elem().Underlying().(type) {
+	case *types.Slice, *types.Map:
+		v.Guard = m.Guard
+	}
 	e.assumeAllocated(f.st, and(f.pc, ok), v)
 	e.setComp(f.st, it.Iter.Seen, ite(ok, store(seen, k, "true"), seen))
 	f.vals[i] = &Value{Type: i.Type(), Tuple: []*Value{term(ok, sBool, types.Typ[types.Bool]), term(k, ks, mt.Key()), v}}
